@@ -18,7 +18,7 @@ NA = {
 CHECKS = {
  "C10": ("5.1","Seeded search over pipeline histories (updates, resets, loads, late derivations, aborted compilations) of the real compiler and torch graphs; after every mutating step each live circuit is compared with a same-flags recompilation of its dereferenced clone (reference model R1), storage identity of learnables is checked, and operator-defining relations that held at birth are re-checked. Exploration, not proof: the space of histories is unbounded."),
  "C12": ("5.2","Seeded search over training histories of template-built normalised circuits; total mass (brute force over all states, or the compiled integral) is re-checked as a conservation law after every update."),
- "C15": ("5.3","The simulator owns the random stream: seeded sample/perturb/recompile sequences; support, per-column attribution on signature circuits and a chi-square test against exact probabilities."),
+ "C15": ("5.3","The simulator owns the random stream: seeded sample / perturb / reset / recompile sequences on normalised circuits; every sample batch is checked for shape, support, per-column attribution (signature circuits) and, by exact binomial tests of all joint cells, single and pairwise marginals (Bonferroni, total level 1e-9), against the exact probabilities obtained by exhaustive evaluation of the compiled circuit."),
  "C17": ("5.4","Seeded search over reset/update/load histories on circuits whose fold groups mix initialisers; every symbolic tensor parameter's registry slice is checked against its own initialiser after compilation and after every reset."),
  "C18": ("5.5","Seeded search over call histories across several pipeline contexts with nested blocks, exceptional exits and injected mid-compile faults, checked step by step against a stack + bimap model."),
  "C19": ("5.6","Seeded search over save/mutate/restart/load histories with a simulated durable store; a version-memo model demands that any saved state reads back exactly into a freshly compiled, freshly initialised instance under a new hash order."),
